@@ -24,7 +24,7 @@ ASSUMPTIONS = ["the reference validator (akv/corrupt.py: sequential structural s
 
 @st.composite
 def cases(draw, tier="quick"):
-    spec = draw(plotgen.plot_specs(max_cells=1500 if tier == "quick" else 5000, max_fields=4,
+    spec = draw(plotgen.plot_specs(thin=True, max_cells=1500 if tier == "quick" else 5000, max_fields=4,
                                    payload_kinds=("coded", "random")))
     coords = draw(st.sampled_from([False, False, True]))
     kinds = corrupt.HARD + (corrupt.COORD * 4 if coords else [])
